@@ -7,8 +7,10 @@ import Magog.Props.C04
 /-! Property C05 — mate and stalemate.
 
     1. score arithmetic and formatting (on regenerated constants);
-    2. **evaluation bound**: on a well-formed position (`Inv`) and with a bounded king-table blend
-       (`BlendBounded`, the recorded parameter assumption) every non-mate evaluation is within `evalB`, an explicit
+    2. **evaluation bound**: on a well-formed position (`Inv`) and with a king-table blend that extrapolates by
+       at most the factor `blendK` on the material sums a well-formed position can have (`BlendBounded`, the
+       recorded parameter assumption; true of the exact interpolation the Go code approximates,
+       `blendBounded_exact`) every non-mate evaluation is within `evalB`, an explicit
        number computed from the generated constants and tables, and `evalB < ScoreCloseToMate < −Lost − 200`
        (`eval_bound`, `band_order`, `C05_cp`); this discharges the hypothesis `EvalRange` of C04
        (`evalRange_of_inv`, `C04_reported_scores_inv`);
@@ -117,11 +119,14 @@ example : Inv startPosition ∧ countMoves startPosition = .ok 20 ∧ countMoves
     moveBound startPosition = 562 ∧ maxMoves = 970 :=
   ⟨inv_startPosition, okIs_eq (by decide +kernel), okIs_eq (by decide +kernel), by decide +kernel, by decide⟩
 
-/-- **evaluation bound.** On a well-formed position, with a blend that stays within the table bound, the
+/-- **evaluation bound.** On a well-formed position, with a blend that stays within `blendK` times the table
+    bound on every material sum `≤ maxMaterialSum` (the engine's game-phase factor is not clamped, so the blend
+    extrapolates when promoted pieces push the material sum above `StartingSumOfMaterial`), the
     piece-square score, the lazy evaluation (any window) and the full evaluation are within `evalB`, except for
     the exact mate score `Lost + depth` of a checkmated side to move. `evalB` is computed from the generated
-    constants and tables: `pieceCap·(matMax + T) + pieceCap·T + 2·T + (64·pieceCap + 10)·MobilityScoreFactor`
-    with `T = pstMaxAbs` (`evalB_eq`). -/
+    constants and tables:
+    `pieceCap·(matMax + T) + pieceCap·T + 2·blendK·T + (64·pieceCap + 10)·MobilityScoreFactor`
+    with `T = pstMaxAbs` (`evalB_eq`; 20 650 on the current constants). -/
 theorem eval_bound (blend : Blend) (p : Position) (hp : Inv p) (hb : BlendBounded blend pstMaxAbs) :
     (∀ c, pieceSquareScore blend p = .ok c → c.natAbs ≤ evalB) ∧
     (∀ (d α β x : Int), lazyEvaluate blend p d α β = .ok x → x = Gen.LostScore + d ∨ x.natAbs ≤ evalB) ∧
@@ -140,8 +145,39 @@ theorem band_order : evalB < Gen.ScoreCloseToMate ∧ (Gen.ScoreCloseToMate : In
 
 /-- non-vacuity: the start position is well-formed, the integer blend `mid` is bounded, the evaluation runs -/
 example : Inv startPosition ∧ BlendBounded demoBlend pstMaxAbs ∧ evaluate demoBlend startPosition 0 = .ok 0 ∧
-    evalB = 19950 :=
-  ⟨inv_startPosition, Lemmas.MateValue.demoBlend_bounded, Lemmas.MateValue.start_eval, by decide +kernel⟩
+    evalB = 20650 ∧ maxMaterialSum = 27000 ∧ blendK = 8 :=
+  ⟨inv_startPosition, Lemmas.MateValue.demoBlend_bounded, Lemmas.MateValue.start_eval, by decide +kernel,
+    by decide, by decide⟩
+
+/-- the parameter assumption is satisfiable by the real-valued interpolation the Go code approximates: the exact
+    blend `⌊(msum·mid + (S − msum)·end) / S⌋` (truncated toward zero, `S = StartingSumOfMaterial`) satisfies
+    `BlendBounded` for every bound, including the extrapolating range `S < msum ≤ maxMaterialSum` -/
+theorem blendBounded_exact (B : Nat) : BlendBounded exactBlend B := Lemmas.EvalBound.blendBounded_exact B
+
+/-- the material sum the blend is applied to is at most `maxMaterialSum` on a well-formed position -/
+theorem materialSum_le (p : Position) (hp : Inv p) (wm bm : Nat)
+    (hw : nonPawnMaterial p.board p.whitePieces = .ok wm) (hb : nonPawnMaterial p.board p.blackPieces = .ok bm) :
+    wm + bm ≤ maxMaterialSum :=
+  Lemmas.EvalBound.materialSum_le hp hw hb
+
+set_option maxRecDepth 100000 in
+example : Inv startPosition ∧ nonPawnMaterial startPosition.board startPosition.whitePieces = .ok 3200 ∧
+    nonPawnMaterial startPosition.board startPosition.blackPieces = .ok 3200 :=
+  ⟨inv_startPosition, okIs_eq (by decide +kernel), okIs_eq (by decide +kernel)⟩
+
+/-- the exact blend takes the values the Go binary returns outside `[mid, end]` (material sums 12 800 and
+    27 000 are reachable by promotions), so the evaluation theorems instantiated with it cover those positions -/
+example : BlendBounded exactBlend pstMaxAbs ∧ exactBlend 12800 (-50) 50 = -150 ∧
+    exactBlend 27000 50 (-50) = 371 ∧ (371 : Nat) ≤ blendK * pstMaxAbs :=
+  ⟨blendBounded_exact _, by decide, by decide, by decide +kernel⟩
+
+/-- the EARLIER form of the parameter assumption ("the blend of two values within 50 is within 50, whatever the
+    material sum") is false of the exact interpolation — and of the Go binary, which returns the same two values
+    -150 and 371; theorems that carried it said nothing about the engine on positions with promoted pieces -/
+theorem old_blend_hypothesis_false_of_exact :
+    ¬ (∀ (msum : Nat) (mid end_ : Int), mid.natAbs ≤ 50 → end_.natAbs ≤ 50 →
+        (exactBlend msum mid end_).natAbs ≤ 50) :=
+  Lemmas.EvalBound.old_blend_hypothesis_false_of_exact
 
 /-- non-mate evaluations are always reported as `cp` -/
 theorem C05_cp (blend : Blend) (p : Position) (hp : Inv p) (hb : BlendBounded blend pstMaxAbs) (d x : Int)
@@ -155,7 +191,7 @@ example : Inv startPosition ∧ BlendBounded demoBlend pstMaxAbs ∧ evaluate de
   ⟨inv_startPosition, Lemmas.MateValue.demoBlend_bounded, Lemmas.MateValue.start_eval, by decide⟩
 
 /-- the evaluation bound discharges C04's hypothesis `EvalRange` on every set of well-formed positions, for all
-    depth budgets `D` with `Lost + D ≤ −evalB` (on the current constants: `D ≤ 80050`) -/
+    depth budgets `D` with `Lost + D ≤ −evalB` (on the current constants: `D ≤ 79350`) -/
 theorem evalRange_of_inv (blend : Blend) (G : Position → Prop) (hG : ∀ p, G p → Inv p)
     (hb : BlendBounded blend pstMaxAbs) (D : Nat) (hD : Gen.LostScore + (D : Int) ≤ -(evalB : Int)) :
     EvalRange blend G D :=
